@@ -5,8 +5,10 @@
 //   mld <hex>      DenseMatrix::loads(bytes): "<r> <c> <dump>…" or the exception token
 //   deep <tc> <n>  (oracle only) a stream nesting n one-argument objects of type code tc around a symbol
 //
-// Every op runs in a forked child: a crash (signal, sanitizer report, assertion abort) of loads or of a
-// post-load operation is attributed to its stage and reported by the oracle, and the harness carries on.
+// loads and the post-load operations run in-process (a crash there is caught by the runner, which restarts the
+// harness and reports FAIL:crash with the sanitizer's diagnostic).  Only the cases that are *known* to crash run
+// in a forked child (fork costs ~100 ms in this sandbox): objects containing an argument-less And/Or/Xor/Union/
+// Piecewise/Max/Min, and the `deep` streams; the child's crash is attributed to its stage by the oracle text.
 // Oracle: loads returns or throws a C++ exception; anything it returns survives vsexp::dump, __str__, hash,
 // __cmp__/eq with itself, eval_double and dumps (exceptions are fine, crashes and failed assertions are not).
 // Allocation guard: see c19_gen.h (single allocations above 64 MiB throw std::bad_alloc -> E:BadAlloc);
@@ -172,10 +174,75 @@ static void child_main(int fd, const std::string &op, const std::string &rest)
     }
 }
 
+static void inproc_post(const RCP<const Basic> &l, std::string &oracle)
+{
+    auto guard = [&](const char *name, const std::function<void()> &f) {
+        try {
+            f();
+        } catch (const VerifAssertError &e) {
+            if (oracle == "ok")
+                oracle = std::string("FAIL:postop-assert:") + name + ": " + e.what();
+        } catch (const std::exception &) {
+        }
+    };
+    guard("str", [&] { (void)l->__str__(); });
+    guard("hash", [&] { (void)l->hash(); });
+    guard("cmp", [&] { (void)l->__cmp__(*l); });
+    guard("eq", [&] { (void)eq(*l, *l); });
+    guard("eval", [&] { (void)eval_double(*l); });
+    guard("redump", [&] { (void)l->dumps(); });
+}
+
 std::string hx_run(const std::string &line, std::string &oracle)
 {
     size_t sp = line.find(' ');
     std::string op = line.substr(0, sp), rest = sp == std::string::npos ? "" : line.substr(sp + 1);
+    if (op == "ld" || op == "mld") {
+        alarm(40);
+        struct Disarm {
+            ~Disarm()
+            {
+                alarm(0);
+            }
+        } disarm;
+        std::string out;
+        try {
+            if (op == "mld") {
+                DenseMatrix m = DenseMatrix::loads(unhex(rest));
+                out = mat_str(m);
+                if (out.find(" MISMATCH ") != std::string::npos)
+                    oracle = "FAIL:matrix-shape:DenseMatrix::loads returns a matrix whose element vector does not have rows*cols entries: " + out;
+                else {
+                    try {
+                        (void)m.__str__();
+                    } catch (const VerifAssertError &e) {
+                        oracle = std::string("FAIL:postop-assert:str: ") + e.what();
+                    } catch (const std::exception &) {
+                    }
+                }
+                stat("result_loaded");
+                return out;
+            }
+            RCP<const Basic> l = Basic::loads(unhex(rest));
+            std::set<std::string> deg;
+            degenerate(*l, deg);
+            if (deg.empty()) {
+                out = vsexp::dump(l);
+                inproc_post(l, oracle);
+                stat("result_loaded");
+                return out;
+            }
+            // fall through to the forked execution
+        } catch (const VerifAssertError &e) {
+            oracle = std::string("FAIL:noncanon:loads aborts on a failed assertion: ") + e.what();
+            stat("result_E:Assert");
+            return "E:Assert";
+        } catch (const std::exception &e) {
+            out = exc_name(e);
+            stat("result_" + out);
+            return out;
+        }
+    }
     int pfd[2], efd[2];
     if (pipe(pfd) != 0 || pipe(efd) != 0)
         return "E:Harness:pipe";
